@@ -16,6 +16,7 @@ type GenParams struct {
 	Backend        string
 	NoDefaultTime  bool // never rely on the wall clock (C12 variants)
 	Queries        int  // up to this many read-only queries after each step
+	DetMode        bool // C12: creation fixes ID and time; operations mostly deterministic/explicit
 	PartitionHeavy bool // theme: mostly partitions (primary / system / data / overlay juggling)
 }
 
@@ -223,6 +224,9 @@ func GenDInput(r *Rng, p GenParams, v *imgView, allowBig bool) DInput {
 
 func genTOpt(r *Rng, p GenParams) TOpt {
 	k := r.Intn(10)
+	if p.DetMode && k >= 7 && r.Chance(1, 2) {
+		k = r.Intn(6)
+	}
 	switch {
 	case k < 3:
 		return TOpt{Kind: TDeterministic}
@@ -356,6 +360,20 @@ func GenHistory(r *Rng, id int, p GenParams) Case {
 		}
 	}
 	co.TimeKind = r.Intn(3)
+	if p.DetMode {
+		// the options fix both ID and time: deterministic, or explicit ID and explicit time
+		if r.Chance(1, 2) {
+			co.IDKind, co.TimeKind = 2, 2
+			if r.Chance(1, 3) {
+				co.TimeKind = 1
+			}
+		} else {
+			co.IDKind, co.TimeKind = 1, 1
+			for i := range co.ID {
+				co.ID[i] = byte(r.U64())
+			}
+		}
+	}
 	if p.NoDefaultTime && co.TimeKind == 0 {
 		co.TimeKind = 1
 	}
@@ -367,6 +385,13 @@ func GenHistory(r *Rng, id int, p GenParams) Case {
 	}
 	if co.TimeKind == 1 {
 		co.Time = Pick(r, []int64{1504657553, 1700000000, 0, 1, ZeroTime})
+	}
+	co.Order = []string{"det", "launch", "id", "time", "cap", "dis"}
+	if r.Chance(1, 2) { // any order: a later option overrides an earlier one
+		for i := len(co.Order) - 1; i > 0; i-- {
+			j := r.Intn(i + 1)
+			co.Order[i], co.Order[j] = co.Order[j], co.Order[i]
+		}
 	}
 	v := &imgView{cap: capacity}
 	nInit := 0
